@@ -29,12 +29,18 @@ func c09Deviations() [][]TNode {
 		{Path: "ww/inner", Kind: "file", Body: "w"},
 		{Path: "ww", Kind: "dir", Mode: 0777},
 		{Path: ".hidden/.x", Kind: "file", Body: "h"},
+		{Path: "lnk2", Kind: "link", Target: "./marker-root"},         // link texts that are not in Clean form
+		{Path: "m/up2", Kind: "link", Target: "../m/../marker-root"}, // must survive the archive verbatim
+		{Path: ".terraform/providers/p", Kind: "file", Body: "p"},    // excluded by the default rules: the file goes, the directories stay
+		{Path: ".terraform/modules/mm/x", Kind: "file", Body: "x"},
 	}
 	out := [][]TNode{nil}
 	for _, s := range single {
 		out = append(out, []TNode{s})
 	}
 	out = append(out, single)
+	// a package whose own rule file re-includes what the default rules exclude
+	out = append(out, []TNode{{Path: ".terraformignore", Kind: "file", Body: "!.git/\n"}, {Path: ".git/HEAD", Kind: "file", Body: "ref"}, {Path: ".terraform/providers/p", Kind: "file", Body: "p"}})
 	return out
 }
 
